@@ -223,6 +223,11 @@ alloc_failed:
 
 static bool is_localhost(const struct sockaddr_storage *addr)
 {
+	if (addr->ss_family == AF_UNIX) {
+		/* A local (unix domain) socket can only be reached from this host. */
+		return true;
+	}
+
 	if (addr->ss_family == AF_INET) {
 		static const uint8_t ipv4_localhost_bytes[] =
 		    {0x7f, 0, 0, 1};
